@@ -84,7 +84,7 @@ theorem flush_decompose (beh : Id → Rect → List DrawOp) (content : Id → In
     have h0d : t0.root.damage = st.tree.root.damage := by rw [← ht0]
     have hcore0 : ∀ x : Id, (t0.wins[x]?).map core = (st.tree.wins[x]?).map core := by intro x; rw [h0w]
     have hI0 : TInv content st.screen t0 :=
-      ⟨treeOk_congr_core hcore0 hI.ok, ordered_congr h0w hI.ord, rootOk_congr_core (hcore0 0) hI.root,
+      ⟨treeOk_congr_core hcore0 hI.ok, ordered_congr h0w hI.ord,
         rootsPositive_congr_core hcore0 hI.pos, by rw [h0d]; exact hI.nonempty, by rw [h0d]; exact hI.dinv, by
           intro L C w l c ho
           rw [ownerAt_congr t0 st.tree h0w] at ho
